@@ -207,7 +207,8 @@ class PoolWorld(HistoryWorld):
             return {'op': 'import', 'c': self._ref(rng), 'idx': f[0], 'crc': f[1], 'cache': f[2], 'size_extra': rng.choice([0, 0, 1]), 'off_extra': rng.choice([0, 0, 2]),
                     'shuffle': rng.getrandbits(16), 'entry': rng.choice(['one', 'list']), 'caller': caller}
         if r < 0.86:
-            return {'op': 'slice_to_cell', 'c': self._ref(rng), 'skip_bits': rng.choice([0, 0, 1, 7, 8, rng.randint(0, 64)]), 'skip_refs': rng.choice([0, 0, 1, 2, 4]), 'how': rng.choice(['to_cell', 'to_cell', 'to_builder', 'store_slice', 'copy_to_cell']), 'after_bits': rng.choice([0, 0, 1, 8, 33]), 'after_refs': rng.choice([0, 0, 1]), 'caller': caller}
+            return {'op': 'slice_to_cell', 'c': self._ref(rng), 'skip_bits': rng.choice([0, 0, 1, 7, 8, rng.randint(0, 64)]), 'skip_refs': rng.choice([0, 0, 1, 2, 4]), 'how': rng.choice(['to_cell', 'to_cell', 'to_builder', 'store_slice', 'copy_to_cell']), 'after_bits': rng.choice([0, 0, 1, 8, 33]), 'after_refs': rng.choice([0, 0, 1]), 'caller': caller,
+                    'via': rng.choice(['begin_parse', 'begin_parse', 'from_cell', 'builder_to_slice'])}
         return {'op': 'via_builder', 'c': self._ref(rng), 'more_bits': _rbits(rng, rng.choice([0, 0, 1, 8])), 'more_ref': self._ref(rng) if rng.random() < 0.4 else None, 'caller': caller}
 
     def _gen_c01(self, st, rng, cfg):
@@ -244,7 +245,8 @@ class PoolWorld(HistoryWorld):
             f = rng.choice(OPTS)
             return {'op': 'to_boc', 'c': ref, 'idx': f[0], 'crc': f[1], 'cache': f[2], 'caller': k}
         if kind == 'order':
-            return {'op': 'order', 'c': ref, 'arg': rng.choice(['none', 'none', 'empty', 'shared']), 'caller': k}
+            return {'op': 'order', 'c': ref, 'arg': rng.choice(['none', 'none', 'empty', 'shared']), 'caller': k,
+                    'then': rng.choice(['', '', 'order_other_into_it', 'order_other_into_it', 'popitem', 'clear']), 'c2': self._ref(rng)}
         if kind == 'hash':
             return {'op': 'hash', 'c': ref, 'caller': k}
         if kind == 'eq':
@@ -264,7 +266,7 @@ class PoolWorld(HistoryWorld):
         if kind == 'vm':
             return {'op': 'vm_serialize', 'items': _vm_items(rng, 2), 'parse': rng.random() < 0.6, 'consume': rng.choice([1, 8, 1023]), 'caller': k}
         if kind == 'parse_blob':
-            return {'op': 'parse', 'blob': rng.randrange(1 << 16), 'enc': rng.choice(['bytes', 'hex', 'b64']), 'entry': rng.choice(['cell_one', 'slice', 'builder']), 'caller': k}
+            return {'op': 'parse', 'blob': rng.randrange(1 << 16), 'enc': rng.choice(['bytes', 'hex', 'b64']), 'entry': rng.choice(['cell_one', 'cell_list', 'slice', 'builder']), 'caller': k}
         if kind == 'repr':
             return {'op': 'repr', 'c': ref, 'caller': k}
         if kind == 'tlb_parse':
@@ -532,7 +534,13 @@ class PoolWorld(HistoryWorld):
         sr = min(op['skip_refs'], len(t.refs))
         twin = RCell(t.bits[sb:], t.refs[sr:])
         def mk():
-            s = e['lib'].begin_parse()
+            via = op.get('via', 'begin_parse')
+            if via == 'from_cell':
+                s = Slice.from_cell(e['lib'])
+            elif via == 'builder_to_slice':
+                s = e['lib'].to_builder().to_slice()
+            else:
+                s = e['lib'].begin_parse()
             if sb:
                 s.skip_bits(sb)
             for _ in range(sr):
@@ -663,8 +671,34 @@ class PoolWorld(HistoryWorld):
         enc = op['enc']
         arg = data if enc == 'bytes' else (data.hex() if enc == 'hex' else (data.hex().upper() if enc == 'HEX' else base64.b64encode(data).decode()))
         entry = op['entry']
-        fn = {'cell_one': Cell.one_from_boc, 'cell_list': lambda a: Cell.from_boc(a)[0], 'slice': Slice.one_from_boc, 'builder': Builder.one_from_boc}[entry]
+        held = []
+
+        def first_of_list(a):
+            held.append(Cell.from_boc(a))
+            return held[0][0]
+        fn = {'cell_one': Cell.one_from_boc, 'cell_list': first_of_list, 'slice': Slice.one_from_boc, 'builder': Builder.one_from_boc}[entry]
         ok, obj = call(fn, arg)
+        if ok and held and isinstance(held[0], list):
+            # the caller uses the list it received as its own work list (pops it empty while walking the DAG, or puts other roots in
+            # front); the same serialisation parsed again - in any text form, through any entry point - still denotes its root
+            lst = held[0]
+            if op['blob'] % 2:
+                while lst:
+                    lst.pop()
+            else:
+                lst.insert(0, Cell(tvm_bits('1'), []))
+            ctx.probe('caller-edits-the-root-list-it-received')
+            routes2 = [(lambda a: Cell.from_boc(a)[0], arg), (Cell.one_from_boc, data)]
+            if twin is not None and not twin.special:
+                routes2.append((Slice.one_from_boc, data.hex()))
+            for fn2, a2 in routes2:
+                ok2, again = call(fn2, a2)
+                h2 = again.hash if ok2 and isinstance(again, Cell) else (again.to_cell().hash if ok2 else None)
+                if not ok2 or h2 != obj.hash:
+                    self.V(ctx, 'result-aliases-internal-state', 'from_boc', 'second-parse-after-the-caller-edited-the-root-list',
+                           'after the caller edited the list returned by from_boc, parsing the same serialisation again %s'
+                           % ('raised %r' % (again,) if not ok2 else 'gave another root'))
+                    return 'diff'
         klass = '%s/%s' % (enc if enc != 'HEX' else 'hex', entry)
         if twin is not None and twin.special and entry == 'builder':
             return 'carve-out'
@@ -700,7 +734,29 @@ class PoolWorld(HistoryWorld):
             ok, r = call(c.order, d)
         if not ok:
             return 'raised:' + type(r).__name__
-        return [x.hash.hex()[:16] for x in r]
+        out = [x.hash.hex()[:16] for x in r]
+        then = op.get('then')
+        if then and isinstance(r, dict):
+            # the caller goes on using the dict it was handed: as the accumulator for another root (the documented use of the
+            # argument), or as its own work list.  The cell it came from must still serialise and order as before
+            ok0, before = call(c.to_boc)
+            other = st.entry(k, op.get('c2', 0))
+            if then == 'order_other_into_it' and other is not None:
+                call(other['lib'].order, r)
+            elif then == 'popitem' and r:
+                r.popitem()
+            else:
+                r.clear()
+            ctx.probe('caller-reuses-the-dict-returned-by-order')
+            ok1, after = call(c.to_boc)
+            ok2, r2 = call(c.order)
+            if ok0 != ok1 or (ok0 and before != after):
+                self.V(ctx, 'result-aliases-internal-state', 'order', 'to_boc-after-the-caller-edited-the-returned-dict',
+                       'after the caller reused the dict returned by order() (%s), to_boc() of the cell changed' % then)
+            elif not ok2 or [x.hash.hex()[:16] for x in r2] != out:
+                self.V(ctx, 'result-aliases-internal-state', 'order', 'order-after-the-caller-edited-the-returned-dict',
+                       'after the caller reused the dict returned by order() (%s), order() of the cell lists other cells' % then)
+        return out
 
     def op_hash(self, st, op, ctx, k):
         e = st.entry(k, op['c'])
